@@ -149,3 +149,87 @@ Example represent_premises_met :
   represent [1; 1; 1; 1; 1] 3 [[(0%nat, 1); (3%nat, 1)]; [(2%nat, 1)]] = Some [0; 1; 1; 0; 1]
   /\ run_okb [1; 1; 1; 1; 1] 3 [[(0%nat, 1); (3%nat, 1)]; [(2%nat, 1)]] = true.
 Proof. vm_compute. split; reflexivity. Qed.
+
+(* ---------------------------------------------------------------- why the elimination loop ends and can always resample
+   (RepresentTermination.v: the loop with the zeroing of probabilities explicit; RepresentFeasibility.v: capacity
+   argument).  [run_req] is [run_ok] without "the loop ends within the fuel"; [run_avoid] says that a sampler result
+   only has keys of positive leftover weight that were not zeroed in an earlier round.  The harness checks
+   [run_avoidb] on the recorded sampler results of every represent case. *)
+Require Import OQ.Stats.RepresentTermination OQ.Stats.RepresentFeasibility.
+
+Theorem elimination_with_zeroing_agrees : forall lw counts fuel zs correct draws,
+  draws_avoid lw counts zs correct draws -> eliminate_z lw counts fuel zs correct draws = eliminate fuel counts correct draws.
+Proof. exact eliminate_z_eq. Qed.
+Print Assumptions elimination_with_zeroing_agrees.
+
+Theorem elimination_loop_terminates : forall ws N d ds fuel,
+  weights_ok ws -> 0 <= N -> N < zsum (rounded ws N) ->
+  run_req ws N (d :: ds) -> run_avoid ws N (d :: ds) ->
+  (List.length (pos_keys (List.length ws) (lwt ws N)) <= fuel)%nat ->
+  (List.length (pos_keys (List.length ws) (lwt ws N)) <= List.length ds)%nat ->
+  (exists e, eliminate fuel (cnt ws N) d ds = Some e /\ ctotal e = zsum (rounded ws N) - N /\
+             forall k, 0 <= cget k e <= cnt ws N k) /\
+  draws_fit_range (List.length ws) fuel (cnt ws N) d ds.
+Proof. exact eliminate_terminates. Qed.
+Print Assumptions elimination_loop_terminates.
+
+Theorem represent_terminates_and_meets_clause : forall ws N draws,
+  weights_ok ws -> 0 <= N -> run_req ws N draws -> run_avoid ws N draws ->
+  (List.length ws < List.length draws)%nat ->
+  exists res, represent ws N draws = Some res /\ zsum res = N /\ (forall k, 0 < nth k res 0 -> 0 < nth k ws 0) /\
+              Forall (fun c => 0 <= c) res.
+Proof. exact represent_total. Qed.
+Print Assumptions represent_terminates_and_meets_clause.
+
+Theorem represent_run_ok_without_termination_assumption : forall ws N draws,
+  weights_ok ws -> 0 <= N -> run_req ws N draws -> run_avoid ws N draws ->
+  (List.length (pos_keys (List.length ws) (lwt ws N)) < List.length draws)%nat ->
+  run_ok ws N draws /\ exists res, represent ws N draws = Some res.
+Proof. exact represent_terminates. Qed.
+Print Assumptions represent_run_ok_without_termination_assumption.
+
+Theorem rounding_surplus_needs_twice_as_many_keys : forall ws N,
+  weights_ok ws -> 0 <= N -> 2 * (zsum (rounded ws N) - N) <= nup ws N.
+Proof. exact surplus_capacity. Qed.
+Print Assumptions rounding_surplus_needs_twice_as_many_keys.
+
+Theorem rounding_surplus_below_capacity : forall ws N,
+  weights_ok ws -> 0 <= N -> N < zsum (rounded ws N) -> zsum (rounded ws N) - N < cap ws N.
+Proof. exact surplus_lt_cap. Qed.
+Print Assumptions rounding_surplus_below_capacity.
+
+Theorem first_sampling_always_possible : forall ws N, weights_ok ws -> zsum (rounded ws N) <> N ->
+  exists j, (j < List.length ws)%nat /\ 0 < lwt ws N j.
+Proof. exact initial_sampling_possible. Qed.
+Print Assumptions first_sampling_always_possible.
+
+Theorem elimination_resampling_always_possible : forall ws N d ds,
+  weights_ok ws -> 0 <= N -> N < zsum (rounded ws N) ->
+  run_req ws N (d :: ds) -> run_avoid ws N (d :: ds) ->
+  feasible_run (List.length ws) (lwt ws N) (cnt ws N) [] d ds.
+Proof. exact resampling_always_possible. Qed.
+Print Assumptions elimination_resampling_always_possible.
+
+Theorem elimination_loop_total_for_any_sampler : forall ws N (sampler : list nat -> Z -> counter) d,
+  weights_ok ws -> 0 <= N -> N < zsum (rounded ws N) ->
+  (forall zs amount, 0 < amount -> (exists j, (j < List.length ws)%nat /\ avail (lwt ws N) zs j = true) ->
+     ctotal (sampler zs amount) = amount /\ cnonneg (sampler zs amount) /\ in_range (List.length ws) (sampler zs amount) /\
+     draw_avoid (lwt ws N) zs (sampler zs amount)) ->
+  ctotal d = zsum (rounded ws N) - N -> cnonneg d -> NoDup (ckeys d) -> in_range (List.length ws) d -> first_ok ws N d ->
+  exists e, run_loop (cnt ws N) sampler (List.length ws) [] d = Some e /\
+            eliminate (List.length ws) (cnt ws N) d (run_trace (cnt ws N) sampler (List.length ws) [] d) = Some e /\
+            ctotal e = zsum (rounded ws N) - N /\ forall k, 0 <= cget k e <= cnt ws N k.
+Proof. exact elimination_loop_total. Qed.
+Print Assumptions elimination_loop_total_for_any_sampler.
+
+Theorem recorded_zeroing_checker_sound : forall ws N draws,
+  andb (run_okb ws N draws) (run_avoidb ws N draws) = true -> run_req ws N draws /\ run_avoid ws N draws.
+Proof. exact recorded_run_sound. Qed.
+Print Assumptions recorded_zeroing_checker_sound.
+
+Example termination_premises_met :
+  let ws := [1; 1; 1; 1; 1; 1; 1] in
+  let draws := [[(0%nat, 3)]; [(1%nat, 2)]; [(2%nat, 1)]; []; []; []; []; []] in
+  andb (run_okb ws 4 draws) (run_avoidb ws 4 draws) = true /\ (List.length ws < List.length draws)%nat /\
+  represent ws 4 draws = Some [0; 0; 0; 1; 1; 1; 1].
+Proof. vm_compute. split; [reflexivity|]. split; [repeat constructor|reflexivity]. Qed.
